@@ -95,6 +95,15 @@ def vset(st, l, val):
     return st._replace(V=tuple(items))
 
 
+def _prune_dead(st, live):
+    """Facts about locals whose value can no longer be read are dropped: they only multiply the stores (a helper inlined at two call sites
+    leaves its temporaries behind on every path)."""
+    if not st.V:
+        return st
+    keep = tuple((k, v) for k, v in st.V if (k % PAYLOAD) in live)
+    return st if len(keep) == len(st.V) else st._replace(V=keep)
+
+
 class Bindings:
     """(generic owner item, param name) -> closures / params bound at in-crate instantiation sites."""
 
@@ -244,6 +253,7 @@ class Proto:
         self.held = {}
         self.summ = {}              # fn name -> frozenset of (T_exit, P_exit, retV)
         self.requires_held = set()
+        self.exit_pre = {}                   # function -> {(token at exit, return value): states the queue was last seen in}
         self._call_T = defaultdict(set)      # callee -> token states it is called in (for inferring owner-only helpers)
         self.owner_helpers = set()           # functions inferred to be part of the owner's code from their call contexts
         self.entryP = {}            # fn name -> frozenset (join over call sites)
@@ -492,6 +502,7 @@ class Proto:
     # ------------------------------------------------------------------------------------
     def analyse(self, fn, record=False):
         _TLS.untracked = fn.mut_borrowed()
+        self.exit_pre[fn.name] = {}
         held = self.H(fn)
         core_guards = frozenset(l for l, c in held.guards.items() if c == 'JobQueue.core')
         rh = fn.name in self.requires_held
@@ -510,6 +521,7 @@ class Proto:
         done = {}
         exits = set()
         nstores = 0
+        live = fn.live_in()
         while work:
             bb = work.pop()
             cur = frozenset(inn[bb])
@@ -523,6 +535,7 @@ class Proto:
                     work = []
                     break
                 for tgt, st2 in self._block(fn, bb, st, held, core_guards, record, exits):
+                    st2 = _prune_dead(st2, live[tgt])
                     if st2 not in inn[tgt]:
                         inn[tgt].add(st2)
                         work.append(tgt)
@@ -567,6 +580,7 @@ class Proto:
         done = {}
         sink = []
         n = 0
+        live = callee.live_in()
         self._inline_depth = getattr(self, '_inline_depth', 0) + 1
         outer_attr = getattr(self, '_attr', None)
         if outer_attr is None and caller is not None:
@@ -584,6 +598,7 @@ class Proto:
                         self.problems.append('store explosion while inlining %s' % callee.name)
                         return []
                     for tgt, x2 in self._block(callee, bb, x, held, frozenset(), record, sink, force_region=True):
+                        x2 = _prune_dead(x2, live[tgt])
                         if x2 not in inn[tgt]:
                             inn[tgt].add(x2)
                             work.append(tgt)
@@ -976,6 +991,9 @@ class Proto:
             exits.append((st, ret))     # inlined helper: hand the whole store back to the caller
             return
         exits.add((st.T, st.P if st.T == 'H' else None, ret))
+        # what the function last saw the queue in, per kind of exit (a failed claim reports "the queue was neither Idle nor Pending")
+        ep = self.exit_pre.setdefault(fn.name, {})
+        ep[(st.T, ret)] = ep.get((st.T, ret), frozenset()) | (st.pre if st.pre is not None else self.ALL)
         if record:
             if st.resched == 1:
                 self.viol.append(('TOK-resched', fn.name, 'owner wrote Idle without the queue-empty test and returns without calling reschedule_queue', fn.loc(bb)))
@@ -1399,6 +1417,12 @@ class Proto:
                 seen = set()
                 for (T2, P2, rv) in sorted(summ, key=repr):
                     x = self._apply_summary_T(st, T2, P2, crh)
+                    if x.resched == 2 and T2 == 'N' and st.T == 'N':
+                        # the callee looked at the queue after our job was appended and found it neither Idle nor ours to take: somebody
+                        # has claimed it since (or it is on the schedule), and whoever that is runs what was appended before
+                        seen_ = self.exit_pre.get(c, {}).get((T2, rv))
+                        if seen_ is not None and 'Idle' not in seen_:
+                            x = x._replace(resched=0)
                     for r in done(x, rv):
                         if r not in seen:
                             seen.add(r)
